@@ -1,139 +1,5 @@
-import EosModel.World
-import EosGen.Consts
-/-! Line protocol of the world / calculator model (see tools/harness/world.py for the writer).
-
-  U                      start a new universe
-  A id max|- default|- hig stackable          (attributes in rank order, highest first)
-  E id category chance|- resist|- isBuff
-  M filter domain extra|- tgtAttr op agg aggKey|- srcAttr      (modifier of the last E)
-  T id group|- category|- defaultEffect|-
-  TA attr value ; TE effect ; TS skillType                       (of the last T)
-  B buffId filter extra|- tgtAttr op agg
-  C hasSource(0/1)       start a new configuration
-  F id ship|- character|- fleet|-
-  I id kind typeId fit state parent|- target|- level|-
-  IM effect mode                                                  (of the last I)
-  Q                      print `R item e1,e2,..` and `V item attr value` for everything, then `.`
-  K stackable hig base cap|- limited ; op value resist agg key|- immune ; ...     direct calculation
--/
-open Eos Eos.World Eos.Calc
-
-structure St where
-  u : Universe := {}
-  cfg : Config := {}
-
-def optInt? (s : String) : Option (Option Int) := if s == "-" then some none else s.toInt?.map some
-def optNat? (s : String) : Option (Option Nat) := if s == "-" then some none else s.toNat?.map some
-def optRat? (s : String) : Option (Option Rat) := if s == "-" then some none else (parseRat? s).map some
-def bool? (s : String) : Option Bool := if s == "1" then some true else if s == "0" then some false else none
-
-def pen (i : Nat) : Rat := penOfList EosGen.Consts.penaltyFactors i
-
-def showVal : Val → String
-  | .absent => "absent" | .ok v => showRat v | .divZero => "divzero" | .notWF => "notwf"
-
-def updLast {α : Type} (l : List α) (f : α → α) : List α :=
-  match l.reverse with
-  | [] => []
-  | x :: xs => (f x :: xs).reverse
-
-def parseMod (s : String) : Option Mod :=
-  match (s.trimAscii.toString).splitOn " " with
-  | [op, v, r, agg, key, imm] => do
-    let op ← op.toNat?; let v ← parseRat? v; let r ← parseRat? r; let agg ← agg.toNat?
-    let key ← optInt? key; let imm ← bool? imm
-    pure { op := op, value := v, resist := r, agg := agg, aggKey := key, immune := imm }
-  | _ => none
-
-def query (st : St) : List String :=
-  let t := evalAll st.u st.cfg specImmune specLimited pen
-  let extra : List Int := [280, 999999]
-  let attrIds := st.u.attrs.map (·.id) ++ extra.filter fun a => !(st.u.attrs.any (·.id == a))
-  let lines := st.cfg.items.flatMap fun x =>
-    let rs := (runningIds st.u st.cfg x)
-    (s!"R {x.id} {",".intercalate (rs.map toString)}") ::
-      (attrIds.map fun a => s!"V {x.id} {a} {showVal (read t x a)}") ++
-      -- unrounded value of limited-precision attributes (lets the harness spot float-fragile rounding ties)
-      (st.u.attrs.filter fun am => specLimited.contains am.id).map fun am =>
-        s!"W {x.id} {am.id} {showVal (valueOf st.u st.cfg specImmune [] pen (readDep st.u t) x am)}"
-  lines ++ ["."]
-
-def step (st : St) (line : String) : St × List String :=
-  let bad := (st, ["bad-op " ++ line])
-  match line.splitOn " " with
-  | ["U"] => ({ st with u := {} }, [])
-  | ["A", id, mx, df, hig, stk] =>
-    match id.toInt?, optInt? mx, optRat? df, bool? hig, bool? stk with
-    | some id, some mx, some df, some hig, some stk =>
-      ({ st with u := { st.u with attrs := st.u.attrs ++ [{ id := id, maxAttr := mx, default := df, hig := hig, stackable := stk }] } }, [])
-    | _, _, _, _, _ => bad
-  | ["E", id, cat, ch, rs, bf] =>
-    match id.toInt?, cat.toNat?, optInt? ch, optInt? rs, bool? bf with
-    | some id, some cat, some ch, some rs, some bf =>
-      ({ st with u := { st.u with effects := st.u.effects ++ [{ id := id, category := cat, chanceAttr := ch, resistAttr := rs, isBuff := bf, mods := [] }] } }, [])
-    | _, _, _, _, _ => bad
-  | ["M", f, d, ex, ta, op, agg, key, sa] =>
-    match f.toNat?, d.toNat?, optInt? ex, ta.toInt?, op.toNat?, agg.toNat?, optInt? key, sa.toInt? with
-    | some f, some d, some ex, some ta, some op, some agg, some key, some sa =>
-      let m : Modifier := { filter := f, domain := d, extra := ex, tgtAttr := ta, op := op, agg := agg, aggKey := key, srcAttr := sa }
-      ({ st with u := { st.u with effects := updLast st.u.effects fun e => { e with mods := e.mods ++ [m] } } }, [])
-    | _, _, _, _, _, _, _, _ => bad
-  | ["T", id, g, c, de] =>
-    match id.toInt?, optInt? g, optInt? c, optInt? de with
-    | some id, some g, some c, some de =>
-      ({ st with u := { st.u with types := st.u.types ++ [{ id := id, group := g, category := c, defaultEffect := de, attrs := [], effects := [], reqSkills := [] }] } }, [])
-    | _, _, _, _ => bad
-  | ["TA", a, v] =>
-    match a.toInt?, parseRat? v with
-    | some a, some v => ({ st with u := { st.u with types := updLast st.u.types fun t => { t with attrs := t.attrs ++ [(a, v)] } } }, [])
-    | _, _ => bad
-  | ["TE", e] =>
-    match e.toInt? with
-    | some e => ({ st with u := { st.u with types := updLast st.u.types fun t => { t with effects := t.effects ++ [e] } } }, [])
-    | _ => bad
-  | ["TS", s] =>
-    match s.toInt? with
-    | some s => ({ st with u := { st.u with types := updLast st.u.types fun t => { t with reqSkills := t.reqSkills ++ [s] } } }, [])
-    | _ => bad
-  | ["B", id, f, ex, ta, op, agg] =>
-    match id.toInt?, f.toNat?, optInt? ex, ta.toInt?, op.toNat?, agg.toNat? with
-    | some id, some f, some ex, some ta, some op, some agg =>
-      ({ st with u := { st.u with buffs := st.u.buffs ++ [{ buffId := id, filter := f, extra := ex, tgtAttr := ta, op := op, agg := agg }] } }, [])
-    | _, _, _, _, _, _ => bad
-  | ["C", src] =>
-    match bool? src with
-    | some b => ({ st with cfg := { hasSource := b } }, [])
-    | none => bad
-  | ["F", id, sh, ch, fl] =>
-    match id.toNat?, optNat? sh, optNat? ch, optNat? fl with
-    | some id, some sh, some ch, some fl =>
-      ({ st with cfg := { st.cfg with fits := st.cfg.fits ++ [{ id := id, ship := sh, character := ch, fleet := fl }] } }, [])
-    | _, _, _, _ => bad
-  | ["I", id, k, ty, fit, state, par, tg, lv] =>
-    match id.toNat?, k.toNat?.bind Kind.ofNat?, ty.toInt?, fit.toNat?, state.toNat?, optNat? par, optNat? tg, optRat? lv with
-    | some id, some k, some ty, some fit, some state, some par, some tg, some lv =>
-      ({ st with cfg := { st.cfg with items := st.cfg.items ++ [{ id := id, kind := k, typeId := ty, fit := fit, state := state, parent := par, target := tg, level := lv, modes := [] }] } }, [])
-    | _, _, _, _, _, _, _, _ => bad
-  | ["IM", e, m] =>
-    match e.toInt?, m.toNat? with
-    | some e, some m => ({ st with cfg := { st.cfg with items := updLast st.cfg.items fun i => { i with modes := i.modes ++ [(e, m)] } } }, [])
-    | _, _ => bad
-  | ["Q"] => (st, query st)
-  | "K" :: _ =>
-    match (line.drop 2).toString.splitOn ";" with
-    | hd :: ms =>
-      match (hd.trimAscii.toString).splitOn " ", ms.mapM parseMod with
-      | [stk, hig, base, cap, lim], some mods =>
-        match bool? stk, bool? hig, parseRat? base, optRat? cap, bool? lim with
-        | some stk, some hig, some base, some cap, some lim =>
-          match calculate pen stk hig base mods cap lim with
-          | .ok v =>
-            let frag := if lim then s!" {showRat (round2Margin ((foldOps pen hig (contributions ((normAll stk mods).toOption.getD [])) base)))}" else ""
-            (st, [s!"ok {showRat v}{frag}"])
-          | .error _ => (st, ["divzero"])
-        | _, _, _, _, _ => bad
-      | _, _ => bad
-    | [] => bad
-  | _ => bad
+import Driver.WorldCommon
+/-! Entry point of the world / calculator model driver (protocol: see Driver/WorldCommon.lean). -/
+open Eos
 
 def main : IO Unit := do lineLoop (← IO.getStdin) ({} : St) step
